@@ -97,3 +97,108 @@ def step_obligations(repo):
         out.append({"name": "%s:no-transaction-control-sql" % mod, "status": "proved" if not ctl else "refuted",
                     "backend": "AST inspection", "seconds": 0.0, "note": repr(ctl[:2])})
     return out
+
+
+# ----------------------------------------------------------------------------- frames of the steps (C20, commutation)
+
+INDEPENDENT = [("classify", "set-zeta-grid"), ("classify", "set-curvature"), ("set-zeta-grid", "set-curvature"), ("rise", "recession")]
+STEP_MODULES = {"classify": "classify", "set-zeta-grid": "zeta_grid", "set-curvature": "set_curvature", "rise": "rise", "recession": "recession"}
+
+
+def _schema(repo):
+    """Tables and views of schema.sql; a view stands for the tables it is defined over (transitively)."""
+    import re
+    text = open(os.path.join(repo, "spowtd", "schema.sql")).read()
+    text = re.sub(r"--[^\n]*", " ", text)
+    tables, views = set(), {}
+    for stmt in text.split(";"):
+        m = re.match(r"\s*CREATE\s+(?:TEMP\s+|TEMPORARY\s+)?TABLE\s+(?:IF\s+NOT\s+EXISTS\s+)?(\w+)", stmt, re.I)
+        if m:
+            tables.add(m.group(1).lower())
+        m = re.match(r"\s*CREATE\s+(?:TEMP\s+|TEMPORARY\s+)?VIEW\s+(?:IF\s+NOT\s+EXISTS\s+)?(\w+)(.*)", stmt, re.I | re.S)
+        if m:
+            views[m.group(1).lower()] = set(w.lower() for w in re.findall(r"\w+", m.group(2)))
+    changed = True
+    while changed:
+        changed = False
+        for v, words in views.items():
+            for w in list(words):
+                if w in views and not views[w] <= words:
+                    words |= views[w]
+                    changed = True
+    return tables, {v: words & tables for v, words in views.items()}
+
+
+def _module_sql(repo, mod, seen=None):
+    """Every SQL text a step module (and the spowtd modules it imports) can issue; None for a non-literal one."""
+    seen = seen if seen is not None else set()
+    if mod in seen:
+        return []
+    seen.add(mod)
+    path = os.path.join(repo, "spowtd", mod + ".py")
+    tree = ast.parse(open(path).read(), path)
+    out = []
+    for c in _calls(tree):
+        if _name(c.func) in ("execute", "executemany", "executescript") and c.args:
+            a = c.args[0]
+            out.append((mod, c.lineno, a.value if isinstance(a, ast.Constant) and isinstance(a.value, str) else None))
+    for n in ast.walk(tree):
+        names = []
+        if isinstance(n, ast.ImportFrom) and (n.module or "").startswith("spowtd"):
+            names = [(n.module + "." + a.name) for a in n.names] + [n.module]
+        elif isinstance(n, ast.Import):
+            names = [a.name for a in n.names if a.name.startswith("spowtd.")]
+        for nm in names:
+            leaf = nm.split(".")[-1]
+            if os.path.exists(os.path.join(repo, "spowtd", leaf + ".py")):
+                out += _module_sql(repo, leaf, seen)
+    return out
+
+
+def _frames(repo, mod):
+    import re
+    tables, views = _schema(repo)
+    reads, writes, opaque = set(), set(), []
+    for m, line, text in _module_sql(repo, mod):
+        if text is None:
+            opaque.append("%s:L%d" % (m, line))
+            continue
+        t = re.sub(r"--[^\n]*", " ", text)
+        t = re.sub(r"'[^']*'", " ", t)
+        for w in re.findall(r"\w+", t):
+            w = w.lower()
+            if w in tables:
+                reads.add(w)
+            elif w in views:
+                reads |= views[w]
+        for m2 in re.finditer(r"\b(?:INSERT(?:\s+OR\s+\w+)?\s+INTO|REPLACE\s+INTO|UPDATE(?:\s+OR\s+\w+)?|DELETE\s+FROM|DROP\s+TABLE(?:\s+IF\s+EXISTS)?|"
+                              r"ALTER\s+TABLE|CREATE\s+(?:TEMP\s+|TEMPORARY\s+)?TABLE(?:\s+IF\s+NOT\s+EXISTS)?)\s+(\w+)", t, re.I):
+            writes.add(m2.group(1).lower())
+        if re.search(r"\b(PRAGMA|ATTACH|VACUUM)\b", t, re.I):
+            opaque.append("%s:L%d (%s)" % (m, line, t.split()[0]))
+    return reads, writes, opaque
+
+
+def frame_obligations(repo):
+    """Bernstein conditions for the pairs of steps that C20 calls independent: neither step writes a table that
+    the other reads or writes.  Frames are extracted mechanically from the SQL texts in the step's module and the
+    spowtd modules it imports (every identifier naming a table, or a view over tables, counts as a read: an
+    over-approximation); with disjoint frames and each step a function of what it reads, the two orders give the
+    same final tables, and a rolled-back attempt in between changes nothing (atomicity part of C20)."""
+    out = []
+
+    def ob(name, ok, note):
+        out.append({"name": "frames:" + name, "status": "proved" if ok else "refuted", "backend": "AST + SQL text inspection",
+                    "seconds": 0.0, "note": note})
+    fr = {}
+    for step, mod in STEP_MODULES.items():
+        fr[step] = _frames(repo, mod)
+        r, w, opaque = fr[step]
+        ob("%s-sql-texts-are-literals" % step, not opaque, "statements whose frame cannot be read off: %r" % opaque)
+        ob("%s-writes-something" % step, bool(w), "writes %s" % sorted(w))
+    for a, b in INDEPENDENT:
+        ra, wa, _ = fr[a]
+        rb, wb, _ = fr[b]
+        ob("%s-does-not-write-what-%s-reads-or-writes" % (a, b), not (wa & (rb | wb)), "overlap %s" % sorted(wa & (rb | wb)))
+        ob("%s-does-not-write-what-%s-reads-or-writes" % (b, a), not (wb & (ra | wa)), "overlap %s" % sorted(wb & (ra | wa)))
+    return out
